@@ -540,6 +540,10 @@ func (vc *VC) intBinop(n ast.Node, op token.Token, a, b *Term, t types.Type, rt 
 		if a.IsConst() && b.IsConst() {
 			return mkVal(t, IntBig(new(big.Int).And(a.K, b.K)))
 		}
+		// x & 2^k  ==  (bit k of x set ? 2^k : 0)
+		if r := andPow2(a, b); r != nil {
+			return mkVal(t, r)
+		}
 	case token.OR:
 		if a.IsConst() && b.IsConst() {
 			return mkVal(t, IntBig(new(big.Int).Or(a.K, b.K)))
@@ -1195,4 +1199,15 @@ func (vc *VC) evalTypeAssert(x *ast.TypeAssertExpr, st *State, commaOk bool) Val
 	res2 := iteVal(okT, res, zeroVal(t))
 	tt := types.NewTuple(types.NewVar(0, nil, "", t), types.NewVar(0, nil, "", types.Typ[types.Bool]))
 	return Val{T: tt, C: append(append([]*Term{}, res2.C...), okT)}
+}
+
+// andPow2: x & 2^k as arithmetic (either operand may be the constant); nil when neither is a positive power of two.
+func andPow2(a, b *Term) *Term {
+	if k, ok := b.Int64(); ok && k > 0 && isPow2(k) {
+		return Ite(Eq(EMod(EDiv(a, IntK(k)), IntK(2)), Zero), Zero, IntK(k))
+	}
+	if k, ok := a.Int64(); ok && k > 0 && isPow2(k) {
+		return Ite(Eq(EMod(EDiv(b, IntK(k)), IntK(2)), Zero), Zero, IntK(k))
+	}
+	return nil
 }
